@@ -14,6 +14,7 @@ structure DState where
   connOpen : Bool := false
   desktop : Bytes := "verif desk".toUTF8.toList
   user : Option Bytes := some "vuser".toUTF8.toList
+  refuse : Bool := false
 
 def envOf (s : DState) : Env :=
   { width := 16, height := 8, desktop := s.desktop, thisHost := "vhost".toUTF8.toList, user := s.user }
@@ -90,8 +91,10 @@ def doReq (s : DState) (dirLen : Nat) (bytes : Bytes) (cuts : List Nat) (endk : 
     | _ => some (false, 0)
   match accepted with
   | none => ({ s with connOpen := false }, "unmodelled")
-  | some (handed, wait) =>
-    let resp := if handed then resp0 ++ rfbVersion else resp0
+  | some (handed0, wait) =>
+    -- a refusing newClientHook: rfbNewClient has greeted the peer already, then tears the client down
+    let resp := if handed0 then resp0 ++ rfbVersion else resp0
+    let handed := handed0 && !s.refuse
     let (openS, realS) :=
       match opened o with
       | none => ("-", "-")
@@ -120,13 +123,13 @@ def doReq (s : DState) (dirLen : Nat) (bytes : Bytes) (cuts : List Nat) (endk : 
     let peerS := if full then "-" else if handed then "open" else if pend && !race then "open" else "eof"
     let newS := if race then " new=open" else ""
     ({ s with connOpen := pend || race },
-     s!"open={openS} real={realS} {respS} conn={connS} peer={peerS} wait={wait}{newS} leak=0 rfb=ok")
+     s!"open={openS} real={realS} {respS} conn={connS} peer={peerS} wait={wait}{newS} leak=0 badclose=0 rfb=ok")
 
 def dstep (s : DState) (toks : List String) : DState × List String :=
   match toks with
   | ["dir", n, l] =>
     match n.toNat?, s.dirLen with
-    | some n, none => if l = "4" || l = "6" then ({ s with dirLen := some n }, ["ok"]) else (s, ["bad-op"])
+    | some n, none => if l = "4" || l = "6" then ({ s with dirLen := some n }, ["ok sigpipe=ign"]) else (s, ["bad-op"])
     | _, _ => (s, ["bad-op"])
   | ["mkdir", p] =>
     match unhex? p, s.dirLen with
@@ -167,6 +170,10 @@ def dstep (s : DState) (toks : List String) : DState × List String :=
       | some u => if u.contains 0 then (s, ["bad-op"]) else ({ s with desktop := d, user := some u }, ["ok"])
       | none => (s, ["bad-op"])
     | none => (s, ["bad-op"])
+  | ["boot", _] => (s, ["ok"])
+  | ["hook", h] =>
+    if h = "refuse" then ({ s with refuse := true }, ["ok"])
+    else if h = "accept" then ({ s with refuse := false }, ["ok"]) else (s, ["bad-op"])
   | ["listener", l] => if l = "4" || l = "6" then (s, ["ok"]) else (s, ["bad-op"])
   | ["newconn"] =>
     match s.dirLen with
